@@ -44,7 +44,9 @@ def r20_1(ctx, fx):
         ctx.anchor("R20.1", "block_to_response: " + what, len(xs), 1, cfg=fx.cfg)
     if not (dg and wrap and cidnew and pfx and code and blocks) or len(dg) != 1 or len(wrap) != 1 or len(cidnew) != 1:
         ctx.ob("R20.1", "block_to_response/single-hash-pipeline", False, site=fn.site(fn.entry), cfg=fx.cfg,
-               detail="expected exactly one digest / wrap / Cid::new call: %d %d %d" % (len(dg), len(wrap), len(cidnew)))
+               detail="expected exactly one digest / wrap / Cid::new call: %d %d %d; the identifier must be assembled by the validating constructor "
+                      "Cid::new(version, codec, multihash) - new_v0 / new_v1 skip the version-codec consistency check, so a malformed prefix "
+                      "(v0 with a foreign codec) would be delivered instead of dropped" % (len(dg), len(wrap), len(cidnew)))
         return
     d, w, cn = dg[0], wrap[0], cidnew[0]
     o = fn.origin(d.args[1])
